@@ -10,6 +10,7 @@ Trace : (history (obs ...) ((probe-id res) ...) called logged-at-gc) | (runUser 
 import gc, itertools
 from harness.core import Prop, some
 from harness.mrun import EqualToEverything, NoTruthEq
+from harness import kwnames
 
 
 class E(Exception):
@@ -209,7 +210,7 @@ class C20(Prop):
             'Deferreds - in the test method, setUp, tearDown or a cleanup (an UNFIRED Deferred in the test method only), each exception kind (failure / error / skip) realised by 15 exception classes incl. '
             'testtools\' and Twisted\'s own (DeferredNotFired, MismatchError, MultipleExceptions with one failure / one error / both / nothing, AlreadyCalledError, CancelledError, '
             'TimeoutError, NoResultError, StaleJunkError, ReentryError: coming out of user code they are user exceptions - seed C20-f), raised or as the failure of a fired Deferred; besides the outcome the whole '
-            'event list must equal that of the same test doing the same thing directly under the plain RunTest; optionally after registering a cleanup with positional and keyword arguments, which must have run with them. thorough adds every history of length <= 5 over a 14-operation alphabet and every history of length <= 3 over a 22-operation alphabet with the unusual values and exceptions. non-trivial = a history with a matcher or extract after at '
+            'event list must equal that of the same test doing the same thing directly under the plain RunTest; in 75 % of the cases after registering two cleanups, the second with a positional and a KEYWORD argument whose name is drawn from the parameter names of every function the keyword travels through (read from the tree under test with inspect - harness/kwnames.py: self, function, fn, f, args, kwargs, result, callable, key, arguments, keywordArguments, exc_info, tb_label, failure; seed C20-g): both must have run, the second with exactly those arguments, whatever the stage did, as they do under the plain RunTest. thorough adds every history of length <= 5 over a 14-operation alphabet and every history of length <= 3 over a 22-operation alphabet with the unusual values and exceptions. non-trivial = a history with a matcher or extract after at '
             'least one other operation, or a runUser case with a Deferred; distinct = distinct input S-expression')
     assumptions = ['twisted.internet.defer.Deferred (callback chain, pausing on a returned Deferred, AlreadyCalledError, DebugInfo.__del__ logging '
                    '"Unhandled error in Deferred" exactly when the last result is a Failure) is modelled by TTV.Deferred.runCbs/add/fire/resume, not verified',
@@ -226,7 +227,7 @@ class C20(Prop):
                    'garbage collection: the Deferred is dropped and gc.collect() is run inside the case; CPython reference counting semantics are assumed',
                    'SynchronousDeferredRunTest: the model has three exception KINDS (by the outcome TestCase reports); which exception class realises a kind, in which '
                    'stage, and the optional keyword cleanup are realisation hints the Lean codec ignores - that the unchanged runner treats every class alike is '
-                   'the tie C20_src_run_user (the errback _got_user_failure reports EVERY failure) plus the differential run against plain RunTest; only the '
+                   'the tie C20_src_run_user (signature (self, function, /, *args, **kwargs), the user\'s function called from a thunk so that no keyword reaches maybeDeferred\'s own parameter, the errback _got_user_failure reports EVERY failure) plus the differential run against plain RunTest; only the '
                    'sequence of result events is compared (not details or tracebacks); an unfired Deferred returned from setUp / tearDown / a cleanup is not '
                    'modelled (no outcome + escape, addSuccess + escape, addError respectively - observed, outside the statement, which speaks of fired Deferreds)',
                    'translator tie: harness/pydeferred2lean.py reads on_deferred_result, the three matchers\' match + handlers, extract_result and '
@@ -338,6 +339,10 @@ class C20(Prop):
         raised directly" on the real objects."""
         hint = list(hint or ['body', 'none']) + [None]
         stage, cleanup, variant = hint[:3]
+        # cleanup: 'none' | 'kw' (keyword called key) | ['kw', name]: the NAME of the cleanup's keyword argument, drawn from the parameter
+        # names of the functions it travels through (harness/kwnames.py; seed C20-g: `_run_user(self, function, *args, **kwargs)` without
+        # the `/` collides with a keyword called function or self; the unchanged runner collided with maybeDeferred's f)
+        kwname = None if cleanup == 'none' else 'key' if cleanup == 'kw' else cleanup[1]
         import testtools
         from twisted.internet import defer
         from testtools.runtest import RunTest
@@ -367,8 +372,10 @@ class C20(Prop):
 
                 def setUp(self):
                     super().setUp()
-                    if cleanup == 'kw':
-                        self.addCleanup(lambda *a, **k: calls.append((a, sorted(k.items()))), 1, key=2)
+                    if kwname:
+                        # registered first = runs last: it shows whether the cleanups AFTER the keyword one are still run
+                        self.addCleanup(lambda: calls.append('registered-first'))
+                        self.addCleanup(lambda *a, **k: calls.append((a, sorted(k.items()))), 1, **{kwname: 2})
                     if stage == 'cleanup':
                         self.addCleanup(body, self)
                     if stage == 'setUp':
@@ -388,6 +395,8 @@ class C20(Prop):
                 T('test').run(r)
             except DeferredNotFired:
                 raised = 'DeferredNotFired'
+            except TypeError as e:      # (a colliding keyword name after a failed setUp: the TypeError leaves run())
+                raised = 'TypeError'
             return [e[0] for e in r._events], raised, calls
         def outcome(ev, raised):
             if ev[:1] != ['startTest'] or ev[-1:] != ['stopTest'] or len(ev) != 3:
@@ -398,11 +407,13 @@ class C20(Prop):
                 return 'notFired' if kind == 'success' else ['raised-and', raised, ev[1]]
             return kind
         ev, raised, calls = one(SynchronousDeferredRunTest, False)
-        if cleanup == 'kw' and calls != [((1,), [('key', 2)])]:
-            return ['runUser', ['keyword-cleanup-not-run-as-registered', len(calls)]]
+        if kwname and calls != [((1,), [(kwname, 2)]), 'registered-first']:
+            return ['runUser', ['keyword-cleanup-not-run-as-registered', kwname, len(calls)] + (['raised', raised] if raised else [])]
         res = outcome(ev, raised)
         if beh != 'returnsUnfired':
-            dev, draised, _ = one(RunTest, True)
+            dev, draised, dcalls = one(RunTest, True)
+            if kwname and dcalls != [((1,), [(kwname, 2)]), 'registered-first']:     # the plain runner must honour every name in the list
+                return ['runUser', ['vocabulary-error', 'keyword', kwname, 'direct'] + dev]
             declared = ['reported', self.exc_kind(beh)] if self.exc_kind(beh) else 'success'
             if outcome(dev, draised) != declared:       # the harness's own table of exception classes is wrong
                 return ['runUser', ['vocabulary-error', str(variant), 'direct'] + dev]
@@ -487,7 +498,8 @@ class C20(Prop):
         if rng.random() < 0.08:
             beh = rng.choice(self.BEHS)
             stage = 'body' if beh == 'returnsUnfired' else rng.choice(self.STAGES)
-            return ['runUser', beh, [stage, rng.choice(['kw', 'kw', 'none'])] + self.variants_of(beh, rng)]
+            cleanup = 'none' if rng.random() < 0.25 else ['kw', rng.choice(kwnames.names())]
+            return ['runUser', beh, [stage, cleanup] + self.variants_of(beh, rng)]
         return ['history', self.g_history(rng)]
 
     ALPHABET = [['fire', ['ok', ['num', 1]]], ['fire', ['ok', None]], ['fire', ['fail', 0]],
@@ -518,6 +530,10 @@ class C20(Prop):
             for stage in self.STAGES:
                 if stage == 'body' or b != 'returnsUnfired':        # (an unfired Deferred from setUp / tearDown / a cleanup: not modelled)
                     yield ['runUser', b, [stage, 'kw']]
+                    # every keyword name of the call path, in every stage, for a successful and a failing behaviour of each shape
+                    if b in (['returns', None], ['raises', 'error'], ['returnsFired', None, ['num', 3]], ['returnsFired', ['some', 'failure'], None]):
+                        for name in kwnames.names():
+                            yield ['runUser', b, [stage, ['kw', name]]]
                     # every exception class of the behaviour's kind, in every stage, raised and as the failure of a fired Deferred
                     for v in (self.EXC_VARIANTS[self.exc_kind(b)] if self.exc_kind(b) else []):
                         yield ['runUser', b, [stage, 'none', v]]
@@ -545,8 +561,11 @@ class C20(Prop):
         if inp[0] == 'runUser':
             f = ['kind:runUser', 'runUser:' + (inp[1] if isinstance(inp[1], str) else inp[1][0] + ('-failed' if inp[1][0] == 'returnsFired' and inp[1][1] else ''))]
             if len(inp) > 2:
-                f += ['runUser:stage=' + inp[2][0], 'runUser:cleanup=' + inp[2][1]]
-                if len(inp[2]) > 2:
+                cl = inp[2][1]
+                f += ['runUser:stage=' + inp[2][0], 'runUser:cleanup=' + (cl if isinstance(cl, str) else 'kw')]
+                if not isinstance(cl, str):
+                    f += ['runUser:cleanup-keyword=' + cl[1], 'runUser:%s:cleanup-keyword=%s' % (inp[2][0], cl[1])]
+                if len(inp[2]) > 2 and isinstance(inp[2][2], str):
                     f += ['runUser:exception=' + inp[2][2], 'runUser:%s:%s:%s' % (inp[2][0], inp[1][0], inp[2][2])]
                 if self.exc_kind(inp[1]) is None and inp[1] != 'returnsUnfired':
                     f.append('runUser:%s:%s' % (inp[2][0], inp[1][0]))
@@ -594,6 +613,8 @@ class C20(Prop):
             stage, cleanup = inp[2][:2]
             if cleanup != 'none':
                 yield ['runUser', inp[1], [stage, 'none'] + inp[2][2:]]
+            if isinstance(inp[1], list) and inp[1][0] != 'returns':
+                yield ['runUser', ['returns', None], inp[2][:2]]
             if stage != 'body':
                 yield ['runUser', inp[1], ['body', cleanup] + inp[2][2:]]
             if isinstance(inp[1], list) and inp[1][0] == 'returnsFired' and inp[1][1]:
